@@ -417,6 +417,25 @@ def build() -> Check:
         if len(calls) != 1:
             raise AnalysisError(f"LambdaClient.{mname}: expected one call of {api}, found {len(calls)}")
         n_api += 1
+        # ... exactly once: the call is not repeated by the client itself. A response lost on the wire does not say the batch was not applied; the same batch sent
+        # again (same token, same updates, no idempotency token) is a duplicate delivery - a second START for an attempt, records after a terminal one (r9_C11).
+        # Shape judged: no loop around the call, and no second call of the API from a handler of the first
+        par_ = {}
+        for n_ in ast.walk(fi.node):
+            for c_ in ast.iter_child_nodes(n_):
+                par_[id(c_)] = n_
+        cur_, loops_ = par_.get(id(calls[0])), []
+        while cur_ is not None and cur_ is not fi.node:
+            if isinstance(cur_, (ast.For, ast.While, ast.AsyncFor, ast.ListComp, ast.GeneratorExp)):
+                loops_.append(f"`{ast.unparse(cur_).splitlines()[0][:60]}` (line {cur_.lineno})")
+            cur_ = par_.get(id(cur_))
+        recursive_ = [c for c in ast.walk(fi.node) if isinstance(c, ast.Call) and isinstance(c.func, ast.Attribute) and c.func.attr == mname
+                      and isinstance(c.func.value, ast.Name) and c.func.value.id == "self"]
+        if mname == "checkpoint":
+            ck.ob("R5.one-wire-call-per-hand-over", fn_construct(fi), not loops_ and not recursive_,
+                  (f"the API call sits inside the loop {loops_[0]}" if loops_ else f"LambdaClient.{mname} calls itself again") +
+                  ": one hand-over of a batch can reach the backend more than once (a transport error after the backend applied the batch makes the second send a duplicate)",
+                  cell=mname)
         kws = {k.arg: strip_cast(k.value) for k in calls[0].keywords if k.arg}
         badk = [f"{k}={ast.unparse(kws[k]) if k in kws else '<missing>'} (expected the parameter `{pname}`)" for k, pname in table.items()
                 if not (k in kws and isinstance(kws[k], ast.Name) and kws[k].id == pname)]
